@@ -507,13 +507,14 @@ def sym_rows_processor(vc):
                           sym_str, wrap)
     fk = vc.under_contract(D + 'file_dumper.py', ['FileDumper', 'rows_processor'])
     vc.under_contract(D + 'dumper_base.py', ['DumperBase', 'insert_hash_in_path'])
-    for variant in ('default', 'hash-in-path', 'no-hash'):
+    for variant in ('default', 'hash-in-path', 'no-hash', 'no-hash+hash-in-path'):
         def thunk(it, variant=variant):
             PyDict = __import__('pyvc.api').api.PyDict
             opts = {}
-            if variant == 'hash-in-path':
+            both = variant == 'no-hash+hash-in-path'     # the option pair: whatever path ends up recorded, the file goes THERE
+            if variant == 'hash-in-path' or both:
                 opts['add_filehash_to_path'] = True
-            if variant == 'no-hash':
+            if variant == 'no-hash' or both:
                 opts['counters'] = PyDict({'resource-hash': None})
             d = mk_dumper(it, options=opts, stub=('write_file_to_output',))
             r = mk_dumped_resource(it, 'resource')
@@ -570,7 +571,11 @@ def sym_rows_processor(vc):
                 if variant != 'no-hash':
                     want += ['hash_handler']
                 want += ['temp_file.close', 'write_file_to_output', 'os.unlink']
-                check(it, 'completion-sequence' + tag, names == want)
+                if both:
+                    # (hashing for the path alone is allowed; what is fixed is the order of the rest)
+                    check(it, 'completion-sequence' + tag, [n for n in names if n != 'hash_handler'] == [n for n in want if n != 'hash_handler'])
+                else:
+                    check(it, 'completion-sequence' + tag, names == want)
                 # the size is read from the temp file after the writer is finalised and before the file is closed
                 pos = {}
                 for i_, e_ in enumerate(post):
@@ -593,7 +598,7 @@ def sym_rows_processor(vc):
                 else:
                     check(it, 'package-bytes-recorded-once' + tag, False)
                 wh = [e for e in post if e.kind == 'TreeWrite' and e.node is mine and e.key == 'hash']
-                if variant == 'no-hash':
+                if variant == 'no-hash' or both:
                     check(it, 'no-hash-recorded-when-disabled' + tag, not wh)
                 else:
                     check(it, 'hash-recorded-is-the-digest-of-the-file' + tag, len(wh) == 1 and wh[0].value is digest)
@@ -603,7 +608,9 @@ def sym_rows_processor(vc):
                     final_path = mine.children.get('path')
                     check(it, 'copies-the-temp-file' + tag, src is tf.attrs['name'])
                     check(it, 'destination-is-the-recorded-path' + tag, term(dst, StrS) == term(final_path, StrS))
-                    if variant == 'hash-in-path':
+                    if both:
+                        pass        # (destination-is-the-recorded-path above is the claim)
+                    elif variant == 'hash-in-path':
                         j3 = z3.Function('os.path.join3', StrS, StrS, StrS, StrS)
                         dn = z3.Function('os.path.dirname', StrS, StrS)
                         bn = z3.Function('os.path.basename', StrS, StrS)
@@ -666,9 +673,16 @@ def sym_write_file_to_output(vc):
     import pyvc.loader as L
     fk = vc.under_contract(D + 'to_path.py', ['PathDumper', 'write_file_to_output'])
     vc.under_contract(D + 'to_path.py', ['PathDumper', '__init__'])
-    for hashed in (False, True):
+    for hashed in (False, True, 'without-the-hash-counter'):
         def thunk(it, hashed=hashed):
-            d = mk_dumper(it, options={'add_filehash_to_path': True} if hashed else {})
+            PyDict = __import__('pyvc.api').api.PyDict
+            opts = {'add_filehash_to_path': True} if hashed else {}
+            if hashed == 'without-the-hash-counter':
+                # no hash is computed, so none is in the path: the file name says nothing about the content and an existing file of
+                # that name is NOT "the same file" -- it is rewritten like any unhashed one (recorded finding, fixed by b709dac)
+                opts['counters'] = PyDict({'resource-hash': None})
+            d = mk_dumper(it, options=opts)
+            hashed = hashed is True
             mk0 = calls(d.init_events, target='os.makedirs')
             check(it, 'constructor-does-nothing-but-ensure-the-output-directory', set(effect_names(d.init_events)) <= {'os.makedirs'})
             # (creating out_path here is redundant -- every copy ensures its own parent -- so it is allowed, not required)
